@@ -43,6 +43,9 @@ def main():
             shutil.copytree(src, os.path.join(root, c), symlinks=True)
         elif os.path.exists(src):
             shutil.copy2(src, os.path.join(root, c))
+    # package tests read ../../test/data: link (read-only use) rather than copy
+    if os.path.isdir(os.path.join(REPO, "test")) and not os.path.exists(os.path.join(root, "test")):
+        os.symlink(os.path.join(REPO, "test"), os.path.join(root, "test"))
     recipes = []
     for f in sorted(glob.glob(os.path.join(VERIF, "selftest", "mutants", "*.json"))):
         for r in json.load(open(f)):
